@@ -547,8 +547,11 @@ func (obj *Flavor) LoadForm() slip.Object {
 		ivs,
 		inh,
 	}
+	// A bare option covers every variable including inherited ones so it is
+	// only used when nothing but vanilla-flavor is inherited.
+	all := len(inh) == 0
 	if 0 < len(obj.initable) {
-		if len(obj.initable) == len(keys) {
+		if all && len(obj.initable) == len(keys) {
 			df = append(df, slip.Symbol(":inittable-instance-variables"))
 		} else {
 			var iiv slip.List
@@ -567,14 +570,14 @@ func (obj *Flavor) LoadForm() slip.Object {
 		}
 	}
 	if 0 < len(gets) {
-		if len(gets) == len(keys) {
+		if all && len(gets) == len(keys) {
 			df = append(df, slip.Symbol(":gettable-instance-variables"))
 		} else {
 			df = append(df, append(slip.List{slip.Symbol(":gettable-instance-variables")}, gets...))
 		}
 	}
 	if 0 < len(sets) {
-		if len(sets) == len(keys) {
+		if all && len(sets) == len(keys) {
 			df = append(df, slip.Symbol(":settable-instance-variables"))
 		} else {
 			df = append(df, append(slip.List{slip.Symbol(":settable-instance-variables")}, sets...))
